@@ -4,6 +4,7 @@ import (
 	"fmt"
 	"go/token"
 	"go/types"
+	"reflect"
 	"sort"
 	"strings"
 
@@ -531,7 +532,22 @@ func runC20(c *Check) {
 					continue
 				}
 				fits := (!pol && (t.Name == ">" || t.Name == ">=")) || (pol && (t.Name == "<=" || t.Name == "<"))
-				if !fits || t.Args[0].Op != "bin" || t.Args[0].Name != "+" || !strings.Contains(t.Args[0].String(), "len(") {
+				if !fits || t.Args[0].Op != "bin" || t.Args[0].Name != "+" || len(t.Args[0].Args) != 2 {
+					continue
+				}
+				// the term added to the running size is the length of what is released, measured
+				// here — not a size remembered elsewhere (a cached size is only as good as every
+				// place that has to keep it current, including what a restart reloads)
+				measured := false
+				for _, o := range t.Args[0].Args {
+					for o != nil && o.Op == "conv" && len(o.Args) == 1 {
+						o = o.Args[0]
+					}
+					if o != nil && o.Op == "call" && o.Name == "len" {
+						measured = true
+					}
+				}
+				if !measured {
 					continue
 				}
 				if lp, ok := t.Args[1].V.(*ssa.Parameter); ok && lp.Parent() == callee {
@@ -585,6 +601,8 @@ func runC20(c *Check) {
 	c.Doc("C20-R8", "= C09-R3 on the retrieval helper the scan uses: Success only after GetIDs succeeded and every chunk was read; a failed Get is StatusError (never NotFound / HeightFromFuture, which the scan moves past).")
 	ruleRetrieveHelper(c, c.Mod(ModRoot), "C20-R8")
 	ruleHelperSequential(c, c.Mod(ModRoot), "C20-R12")
+	rulePersistedFieldsSurvive(c, p, "C20-R13", basedPkg)
+	c.MinInstances("C20-R13", 1)
 	c.MinInstances("C20-R8", 4)
 	c.MinInstances("C20-R1", 1)
 	c.MinInstances("C20-R7", 1)
@@ -779,4 +797,173 @@ func ruleScanOnlyOverEmptyQueue(c *Check, p *Prog, g *Graph, fnb *ssa.Function, 
 		"the DA layer is scanned although the carry-over queue may still hold a transaction that did not fit: a smaller transaction found at a later height is released ahead of it (DA order broken)",
 		g, g.PrecedeSince(isMut, nodeSet(empties), isRetrieve))
 	c.MinInstances(rule, 1)
+}
+
+// rulePersistedFieldsSurvive (C20-R13): a record written with encoding/json (or encoding/gob)
+// keeps only its exported fields (and, for json, those not tagged "-"). A field of such a record
+// that the encoder drops, and that the package reads, is state that silently becomes zero at the
+// next start: the restarted node no longer continues from what the stopped one knew.
+func rulePersistedFieldsSurvive(c *Check, p *Prog, rule string, pkgPrefix string) {
+	c.Doc(rule, "VP: every field of a record type handed to encoding/json or encoding/gob for persistence that the package reads is one the encoder keeps (exported, not tagged \"-\"), unless the type brings its own (un)marshalling methods or the loading function assigns the field itself.")
+	isCodec := func(name string) bool {
+		switch name {
+		case "encoding/json.Marshal", "encoding/json.MarshalIndent", "encoding/json.Unmarshal",
+			"(*encoding/json.Encoder).Encode", "(*encoding/json.Decoder).Decode",
+			"(*encoding/gob.Encoder).Encode", "(*encoding/gob.Decoder).Decode":
+			return true
+		}
+		return false
+	}
+	type site struct {
+		fn  *ssa.Function
+		pos token.Pos
+	}
+	persisted := map[*types.Named]site{}
+	var collect func(t types.Type, s site, depth int)
+	collect = func(t types.Type, s site, depth int) {
+		if depth > 6 {
+			return
+		}
+		switch u := t.(type) {
+		case *types.Pointer:
+			collect(u.Elem(), s, depth+1)
+		case *types.Slice:
+			collect(u.Elem(), s, depth+1)
+		case *types.Array:
+			collect(u.Elem(), s, depth+1)
+		case *types.Map:
+			collect(u.Elem(), s, depth+1)
+		case *types.Named:
+			if u.Obj().Pkg() == nil || !strings.HasPrefix(u.Obj().Pkg().Path(), pkgPrefix) {
+				return
+			}
+			st, ok := u.Underlying().(*types.Struct)
+			if !ok {
+				collect(u.Underlying(), s, depth+1)
+				return
+			}
+			if _, seen := persisted[u]; seen {
+				return
+			}
+			// a type with its own codec methods decides itself what is written
+			for _, m := range []string{"MarshalJSON", "UnmarshalJSON", "GobEncode", "GobDecode", "MarshalBinary", "UnmarshalBinary", "MarshalText", "UnmarshalText"} {
+				if obj, _, _ := types.LookupFieldOrMethod(types.NewPointer(u), true, u.Obj().Pkg(), m); obj != nil {
+					if _, isFn := obj.(*types.Func); isFn {
+						return
+					}
+				}
+			}
+			persisted[u] = s
+			for i := 0; i < st.NumFields(); i++ {
+				collect(st.Field(i).Type(), s, depth+1)
+			}
+		}
+	}
+	loaders := map[*types.Named]map[*ssa.Function]bool{}
+	for _, f := range p.Funcs {
+		if pk := fnPkg(f); pk == nil || !strings.HasPrefix(pk.Pkg.Path(), pkgPrefix) {
+			continue
+		}
+		for _, b := range f.Blocks {
+			for _, in := range b.Instrs {
+				call, ok := in.(ssa.CallInstruction)
+				if !ok || !isCodec(commonName(call.Common())) {
+					continue
+				}
+				for _, a := range call.Common().Args {
+					if mi, ok := a.(*ssa.MakeInterface); ok {
+						before := len(persisted)
+						collect(mi.X.Type(), site{f, in.Pos()}, 0)
+						_ = before
+						if strings.Contains(commonName(call.Common()), "Unmarshal") || strings.Contains(commonName(call.Common()), "Decode") {
+							var mark func(t types.Type, d int)
+							mark = func(t types.Type, d int) {
+								if d > 6 {
+									return
+								}
+								switch u := t.(type) {
+								case *types.Pointer:
+									mark(u.Elem(), d+1)
+								case *types.Slice:
+									mark(u.Elem(), d+1)
+								case *types.Named:
+									if loaders[u] == nil {
+										loaders[u] = map[*ssa.Function]bool{}
+									}
+									loaders[u][f] = true
+								}
+							}
+							mark(mi.X.Type(), 0)
+						}
+					}
+				}
+			}
+		}
+	}
+	var names []*types.Named
+	for n := range persisted {
+		names = append(names, n)
+	}
+	sort.Slice(names, func(i, j int) bool { return names[i].String() < names[j].String() })
+	for _, n := range names {
+		st := n.Underlying().(*types.Struct)
+		s := persisted[n]
+		var lost []string
+		for i := 0; i < st.NumFields(); i++ {
+			fld := st.Field(i)
+			tag := reflect.StructTag(st.Tag(i)).Get("json")
+			dropped := !fld.Exported() || tag == "-"
+			if !dropped || fld.Embedded() {
+				continue
+			}
+			// read anywhere in the package, and not assigned by a function that loads the record
+			read, reloaded := false, false
+			for _, f := range p.Funcs {
+				if pk := fnPkg(f); pk == nil || !strings.HasPrefix(pk.Pkg.Path(), pkgPrefix) {
+					continue
+				}
+				for _, b := range f.Blocks {
+					for _, in := range b.Instrs {
+						switch x := in.(type) {
+						case *ssa.Field:
+							if structOf(x.X.Type()) == n && x.Field == i {
+								read = true
+							}
+						case *ssa.FieldAddr:
+							if structOf(x.X.Type()) != n || x.Field != i {
+								continue
+							}
+							for _, r := range *x.Referrers() {
+								switch u := r.(type) {
+								case *ssa.UnOp:
+									read = true
+								case *ssa.Store:
+									if u.Addr == ssa.Value(x) && loaders[n][f] {
+										reloaded = true
+									}
+								}
+							}
+						}
+					}
+				}
+			}
+			if read && !reloaded {
+				lost = append(lost, fld.Name())
+			}
+		}
+		inst := n.Obj().Pkg().Name() + "." + n.Obj().Name() + " ⟂ fields the package reads are persisted"
+		if len(lost) == 0 {
+			c.OK(rule, inst, fnName(s.fn), p.Pos(s.pos), "every field of the persisted record that is read is one the encoder writes", true)
+		} else {
+			c.Bad(rule, inst, fnName(s.fn), p.Pos(s.pos), "the record is persisted with an encoder that drops the field(s) "+strings.Join(lost, ", ")+" (unexported or tagged \"-\"), which the package reads: after a restart they are zero, and the restarted node does not continue from what the stopped one held", nil)
+		}
+	}
+}
+
+func structOf(t types.Type) *types.Named {
+	if pt, ok := t.Underlying().(*types.Pointer); ok {
+		t = pt.Elem()
+	}
+	n, _ := t.(*types.Named)
+	return n
 }
